@@ -19,7 +19,7 @@ for p in props:
         "evidence_file": "evidence/%s.json" % pid,
         "replay_cmd_template": "./check %s --replay {path}" % pid,
         "engine": "coq-model-and-proofs",
-        "level_claimed": {"category": "proof", "text": d["text"], "design_ref": "DESIGN.md §5 %s, §9" % pid},
+        "level_claimed": {"category": "proof", "text": d["text"], "design_ref": "DESIGN.md §5 %s, §6b, §6d" % pid},
         "level_note": d.get("note", "Trusted: Coq 8.16.1 kernel; extraction with ExtrOcamlBasic only; OCaml driver; Go harness (generators, observable projection, direct oracles); theorems are about the Gallina model, tied to /repo by regenerated facts and a differential correspondence run on every check. " + "; ".join(cfg.get("assumptions", []))[:900]),
         "technique": d.get("technique", "machine-checked proof in Coq (Rocq) + model/implementation correspondence check"),
     })
